@@ -2,6 +2,7 @@ import Zc.Proofs.QueueRun
 import Zc.Proofs.Classify
 import Zc.Proofs.Response
 import Zc.Proofs.ResponseComplete
+import Zc.Props.C12Host
 /-! # C12 — reply timing: jitter, aggregation, one-second protection, truncated queries
 
 Numbers in the statements (20, 120, 500, 1000, 1020, 1200, 400) come from the English property;
@@ -429,22 +430,16 @@ duplicate / already deferred, or defers it), it sends nothing -/
 theorem C12_tc_silent {h : Host} {t : Int} {addr port dataId size : Nat} {hasQu : Bool} {p : Pkt} {seen : SeenMap} {draws : List Int} {r : StepOut}
     (hs : h.step (.rx t addr port dataId size hasQu (.query p) seen draws) = .ok r) (htc : p.truncated = true) : r.outs = [] := by
   have hnt : Gen.Reply.l_not_truncated p.truncated = false := by rw [GenFacts.l_not_truncated, htc]; rfl
-  unfold Host.step at hs
-  simp only [Ev.time, hnt, Bool.false_eq_true, if_false] at hs
-  repeat' split at hs
-  all_goals first
-    | (cases hs; done)
-    | (cases hs; rfl)
-    | skip
-  cases hd : takeDraw tcLo tcHi draws with
-  | error e => rw [hd] at hs; cases hs
-  | ok v =>
-    rw [hd] at hs
-    simp only [bind, Except.bind, pure, Except.pure] at hs
-    split at hs
-    · cases hs
-    · cases hs; rfl
-
+  obtain ⟨a, hd, hp⟩ := step_decide hs
+  cases a with
+  | idle lis => exact (perform_idle hp).2
+  | defer lis d => exact (perform_defer hp).2
+  | ready d => obtain ⟨t', he⟩ := decide_ready hd; cases he
+  | answer lis pkts addr' port' =>
+    exfalso
+    simp only [Host.decide, hnt, Bool.false_eq_true, if_false] at hd
+    repeat' split at hd
+    all_goals cases hd
 
 /-- When the timer fires (or an untruncated packet of the same source arrives: `msg = some _`) **all**
 deferred packets of the address are answered by one `handle_assembled_query`, after which nothing is
